@@ -118,3 +118,27 @@ func harnessC37Witness() {
 		verif_assert(false, "witness")
 	}
 }
+
+func c37Getenv(name string) string {
+	v, _ := c37LookupEnv(name)
+	return v
+}
+
+// the ${NAME:-default} form is longer than the free-text bound of harnessC37Diff:
+// structured text around one such reference, symbolic name, default, and
+// environment (a variable may be set to the empty string)
+func harnessC37Default() {
+	c37Names = [2]string{"A", "_"}
+	vals := []string{"", "v", "${A}"}
+	for i := range c37Vals {
+		c37Set[i] = verif_nondet_bool()
+		c37Vals[i] = vals[verif_choose(3)]
+	}
+	name := c37Text(1)
+	def := c37Text(verif_choose(2))
+	s := "${" + name + ":-" + def + "}" + c37Text(verif_choose(2))
+	got := expandEnvVars(s)
+	want := c37Ref(s)
+	verif_reach("C37/default-form")
+	verif_assert(got == want, "C37/default-form-differs-from-single-pass-reference")
+}
